@@ -15,7 +15,9 @@ STM = ["x = 1", "y = x + 2", "print(x)", "print(x, y)", "total = total + n", "it
        "assert x == 1", "g = [i * 2 for i in items if i]", "print('a' + str(x))", "x, y = y, x", "y = 0",
        "total = 5", "name = ''", "for i in range(0, 10):\n    print(i)", "flag = False",
        # comments (CPython's parser ignores them all; "# type:" ones only mean something to a type-comment-aware parse)
-       "# type: number of items\nn = 0", "d = f(x,  # type: the first one\n      3)", "m = 1  # type: ignore"]
+       "# type: number of items\nn = 0", "d = f(x,  # type: the first one\n      3)", "m = 1  # type: ignore",
+       # string literals over several lines, one of which holds only blanks (an editor's auto-indent inside a docstring)
+       "def doc():\n    \'\'\'first\n    \n    last\'\'\'\n    return 1", "banner = \'\'\'a\n  \nb\'\'\'"]
 CHAIN = ["x = 0", "y = 0", "p = y", "q = x", "p = x", "q = y + 1"]
 
 
